@@ -29,7 +29,7 @@ from pathlib import Path
 
 TIMEOUT = 20.0
 OPNAMES = {"lock (aenter)": "lockin", "lock (aexit)": "lockout", "aio_code": "proc",
-           "End of job processing": "doneh"}
+           "End of job processing": "doneh", "aio_code (adopted)": "adopt"}
 
 
 class Stuck(Exception):
@@ -162,12 +162,29 @@ def make_factory(ctl):
         async def aio_code(self):
             return await ctl.park("aio_code", lambda: self.job.v_code)
 
+    class AdoptedProcess:
+        """A process started by an earlier scheduler, still running when the job is submitted again:
+        aio_code() gives the planned code (None: cannot be retrieved); the .done marker is there or not
+        once it has ended"""
+
+        def __init__(self, job):
+            self.job = job
+
+        async def aio_code(self):
+            def ended():
+                if self.job.v_adopt["done"]:
+                    self.job.donepath.parent.mkdir(parents=True, exist_ok=True)
+                    self.job.donepath.touch()
+                return self.job.v_adopt["code"]
+            return await ctl.park("aio_code (adopted)", ended)
+
     class FakeJob(Job):
         def __init__(self, config, *, launcher=None, workspace=None, run_mode=None):
             super().__init__(config, workspace=workspace, launcher=launcher, run_mode=run_mode)
             plan = ctl.plan
             self.v_index = plan["index"]
             self.v_code = plan["code"]
+            self.v_adopt = plan.get("adopt")
             if plan.get("marker"):
                 self.donepath.parent.mkdir(parents=True, exist_ok=True)
                 self.donepath.touch()
@@ -175,7 +192,7 @@ def make_factory(ctl):
             ctl.jobidx[id(self)] = self.v_index
 
         async def aio_process(self):
-            return None
+            return AdoptedProcess(self) if self.v_adopt else None
 
         async def aio_run(self):
             from experimaestro.scheduler.base import JobDependency
@@ -355,7 +372,7 @@ def run_workload(w):
             cfg, init = build_config(ctl, w, j, values, objs)
             for (t, c) in spec["toks"]:
                 cfg.add_dependencies(tokens[t].dependency(c))
-            ctl.plan = dict(index=j, code=spec["code"], marker=spec.get("marker", False))
+            ctl.plan = dict(index=j, code=spec["code"], marker=spec.get("marker", False), adopt=spec.get("adopt"))
             objs[j] = cfg
             if w.get("dump_heaps"):
                 trace["heaps"][j] = dict(nodes=dump_heap(ctl, cfg, init),
